@@ -13,7 +13,8 @@ LEVEL_TEXT = ('Every input of the corpus is edited by every single edit (quick) 
               'from a group, each non-atom record type, hydrogens with each naming pattern on each heavy atom of a residue, and '
               'rewrites of the serial, occupancy, B-factor, element and charge columns (uniform, alternating and per-alt-loc values, truncated '
               'and over-long lines), also on multi-conformation inputs whose residues carry different alt-loc sets; '
-              'the real results must equal those of the unedited input. --protonate-all is compared with the default run, and for '
+              'the real results must equal those of the unedited input. --protonate-all is compared with the default run (and with the '
+              '--keep-protons run on own and displaced hydrogens), input hydrogens with used and unused alt-loc letters are added to multi-conformation inputs, and for '
               'amino-acid inputs the program\'s own hydrogens are written back and the --keep-protons run compared with the default.')
 LEVEL_NOTE = ('Differential oracle between real executions (1e-9). A fed-back hydrogen closer than 1.5 A to a second heavy atom is '
               'skipped (it would create a second bond). Three or more simultaneous edits are outside the bound.')
@@ -246,6 +247,17 @@ def run_case(case, ctx, acc):
             extra = [x for x in i2 if all(x is not y for y in s.items)]
             merged = list(i1) + extra
             compare(dict(case, edit=n1 + '+' + n2), gen.to_text(merged), (), f1 + '+' + f2)
+    # input hydrogens carrying an alternate-location letter (one that heavy atoms use, one that none uses): ignored like all others
+    if case['src'] == 'c08':
+        heavy = [it for it in s.items if not isinstance(it, str)]
+        target = next((a for a in heavy if a.name == 'CB'), heavy[0])
+        for alt in (' ', 'A', 'B', 'C', 'Z', '3'):
+            h = target.clone()
+            h.name4, h.alt, h.tail = ' HX ', alt, '           H'
+            h.x, h.y, h.z = h.x + 700, h.y + 500, h.z - 400
+            new = list(s.items)
+            new.insert(s.items.index(target) + 1, h)
+            compare(dict(case, edit='hydrogen/alt-loc-%s' % (alt.strip() or 'blank')), gen.to_text(new), (), 'hydrogen')
     # --protonate-all never changes a pKa
     r_pa = pk.record(pk.run(text0, ('--protonate-all',)))
     sub = dict(case, edit='option/protonate-all')
@@ -268,6 +280,23 @@ def run_case(case, ctx, acc):
             if d:
                 acc.viols.append(Viol(sub, 'no-effect', 'keep-protons-feedback-changes-result/%s' % d[0][0], str(d[0])[:300],
                                       inputs=dict(pdb=text0, edited=text, opts=['--keep-protons'])))
+            # --protonate-all changes nothing either when the input hydrogens are kept - also when they are not where the program
+            # would put them
+            moved = []
+            for it in items:
+                if not isinstance(it, str) and it.element == 'H':
+                    it = it.clone()
+                    it.x, it.y, it.z = it.x + 150, it.y - 100, it.z + 120
+                moved.append(it)
+            for nm, tx in (('own', text), ('displaced', gen.to_text(moved))):
+                ra = pk.record(pk.run(tx, ('--keep-protons',)))
+                rb = pk.record(pk.run(tx, ('--keep-protons', '--protonate-all')))
+                acc.n += 1
+                d = cmp.diff_records(ra, rb, tol=1e-9)
+                if d:
+                    acc.viols.append(Viol(dict(case, edit='option/protonate-all+keep-protons/%s-hydrogens' % nm), 'no-effect',
+                                          'protonate-all-changes-result/with-keep-protons/%s' % d[0][0], str(d[0])[:300],
+                                          inputs=dict(pdb=tx, opts=['--keep-protons', '--protonate-all'])))
             # and without the option the fed-back hydrogens are stripped
             r_s = pk.record(pk.run(text, ()))
             d = cmp.diff_records(r0, r_s, tol=1e-9)
